@@ -290,3 +290,93 @@ def history_cases(jobs):
         else:
             out.append({"id": job["id"], "props": job["props"], "world": job["world"], "steps": steps})
     return out
+
+
+# ---------------------------------------------------------------------------
+# C03: argument / default / result / exception pass-through
+# ---------------------------------------------------------------------------
+def entry_cases(jobs):
+    """job = {id, world (chain classes, methods with names/posonly/self), shapes}"""
+    from ovld.utils import MISSING
+
+    from .observe import classify, describe
+    from .realize import BuiltWorld, Sentinel
+
+    out = []
+    for job in jobs:
+        w = job["world"]
+        try:
+            bw = BuiltWorld(w)
+        except Exception as e:
+            out.append({"id": job["id"], "skip": f"{type(e).__name__}: {e}"})
+            continue
+        build_err = None
+        try:
+            fs = bw.build_functions()
+            f = fs[1]
+        except Exception as e:  # registration itself refused
+            build_err = e
+        steps = []
+        top = len(w["parents"])
+        is_meth = any(m.get("self") for m in w["methods"])
+        host = None
+        if build_err is None and is_meth:
+            Host = type("Host", (), {"f": f, "__module__": "vfworld"})
+            host = Host()
+        dflt_owner = {id(v): k for k, v in bw.dflt.items()}
+        for sh in job["shapes"]:
+            obs = {"kind": "", "m": "", "bind": [], "ret": "", "slf": "ok"}
+            if build_err is not None:
+                obs["kind"] = "config"
+                obs["err"] = describe(build_err)
+                steps.append({"shape": sh, "obs": obs})
+                continue
+            args = [bw.instance(top, fresh=True) for _ in range(sh["np"])]
+            kw = {k: bw.instance(top, fresh=True) for k in sh["kws"]}
+            del bw.log[:]
+            ret = exc = None
+            try:
+                ret = host.f(*args, **kw) if host is not None else f(*args, **kw)
+                obs["kind"] = "run"
+            except BaseException as e:  # noqa
+                exc = e
+                obs["kind"] = classify(e, bw.exc.values())
+                obs["err"] = describe(e)
+            if bw.log:
+                mid, posobjs, kwobjs, _nxt, slf = bw.log[0]
+                m = next(mm for mm in w["methods"] if mm["id"] == mid)
+                obs["m"] = mid
+                names = m.get("names") or [f"p{i + 1}" for i in range(len(m["pos"]))]
+                vals = list(zip(names, posobjs)) + list(kwobjs.items())
+                toks = []
+                for pname, o in vals:
+                    tok = "other"
+                    for i, a in enumerate(args):
+                        if o is a:
+                            tok = f"arg:{i + 1}"
+                    for k, a in kw.items():
+                        if o is a:
+                            tok = f"kw:{k}"
+                    if o is bw.dflt.get((mid, pname)):
+                        tok = "dflt"
+                    elif id(o) in dflt_owner and isinstance(o, Sentinel):
+                        tok = "otherdflt"
+                    elif o is MISSING:
+                        tok = "placeholder"
+                    toks.append(tok)
+                obs["bind"] = toks
+                if m.get("self"):
+                    obs["slf"] = "ok" if slf is host else "bad"
+                if obs["kind"] == "run":
+                    obs["ret"] = "ok" if ret is bw.ret.get(mid) else "bad"
+                elif obs["kind"] == "raised":
+                    obs["ret"] = "ok" if exc is bw.exc.get(mid) else "bad"
+            elif obs["kind"] == "run":
+                obs["kind"] = "internal"
+                obs["err"] = "returned without entering a method body"
+            if exc is not None:
+                exc.__traceback__ = None
+            steps.append({"shape": sh, "obs": obs})
+        bw.cleanup()
+        out.append({"id": job["id"], "world": w, "steps": steps})
+    return out
